@@ -142,7 +142,11 @@ func (f *FieldCopyToGenerator) genZeroValue(fieldName string) func(*j.Group) {
 		}
 
 		// v.Null = v.Value == ""
-		if f.ZeroValue != "" {
+		if f.ZeroValue != "" && f.ParentIsOptionalEmbed {
+			// The parent embed may be nil: do not dereference it to compute the zero-ness.
+			g.Id("v.Null").Op("=").Id("obj." + f.ParentIsOptionalEmbedFieldName).Op("==").Nil().Op("||").
+				Id(f.i.WithType(f.ValueCastToType)).Parens(j.Id(fieldName)).Op("==").Id(f.ZeroValue)
+		} else if f.ZeroValue != "" {
 			g.Id("v.Null").Op("=").Id(f.i.WithType(f.ValueCastToType)).Parens(j.Id(fieldName)).Op("==").Id(f.ZeroValue)
 		} else {
 			g.Id("v.Null").Op("=").False()
